@@ -614,10 +614,10 @@ def assign_compiler_operand_roles(F, rep, rule):
                 seq[nm] += 1
                 r0, r1 = roles_of(c[2][0], env), roles_of(c[2][1], env)
                 ok = r0 == {"sink"} and r1 == {"source"}
-                rep.check(ok, rule, "%s:%s#%d" % (owner, nm, seq[nm]),
-                          "%s::compile calls `%s` with (%s, %s) in the (sink, source) positions: the assignment writes into the wrong operand" % (
-                              owner, render(c)[:90], "/".join(sorted(r0)) or "?", "/".join(sorted(r1)) or "?"), "%s (%s)" % (owner, crate),
-                          sample={"compiler": owner, "call": render(c)[:100]})
+                pending.append((bool(r0 or r1), (ok, rule, "%s:%s#%d" % (owner, nm, seq[nm]),
+                                "%s::compile calls `%s` with (%s, %s) in the (sink, source) positions: the assignment writes into the wrong operand" % (
+                                    owner, render(c)[:90], "/".join(sorted(r0)) or "?", "/".join(sorted(r1)) or "?"), "%s (%s)" % (owner, crate)),
+                                {"compiler": owner, "call": render(c)[:100]}))
 
             def visit(x, env, depth):
                 if isinstance(x, dict):
@@ -687,8 +687,15 @@ def assign_compiler_operand_roles(F, rep, rule):
                     visit(y, env, depth)
 
             env0 = {}
+            pending = []
             for st in it["body"]:
                 visit(st, env0, 0)
+            if pending and not any(known for known, _, _ in pending):
+                # elements 0 and 1 of the argument vector are read, but no operand of any dispatcher call could be traced back to them
+                rep.note("undecided", {"rule": rule, "compiler": owner, "why": "the operands of its dispatcher calls could not be traced to elements 0 / 1 of the argument vector: roles not decided"})
+                continue
+            for _, args, sample in pending:
+                rep.check(*args, sample=sample)
     rep.floor(rule, "dispatcher calls in assignment compilers", n, 60)
 
 
